@@ -6,3 +6,4 @@ for p in ${1:-C01 C02 C03 C04 C05 C06 C07 C08 C09 C10 C11 C12 C13 C14 C15 C16 C1
   echo "$p exit=$e $(( $(date +%s) - s ))s $(grep -v 'WARNING\|KNOWN' scratch-$p.log | tail -1 | cut -c1-150)"
   [ $e -ne 0 ] && grep -v "WARNING\|KNOWN" scratch-$p.log | grep "^  \|VIOLATION\|HARNESS" | head -6 | cut -c1-1200
 done
+true
